@@ -1,7 +1,7 @@
 import re
 from copy import deepcopy
 from datetime import date, datetime
-from math import isclose
+from math import isclose, isfinite
 from typing import Any, Callable, List, Optional, Type, cast
 from uuid import UUID
 
@@ -170,9 +170,15 @@ class Validator(SchemaVisitor[ValidationResult]):
                     return result.add_error(ValueValidationError(path, value, schema.props.value))
             else:
                 scale_factor = 10 ** schema.props.precision
-                scaled_actual = round(value * scale_factor)
-                scaled_expected = round(schema.props.value * scale_factor)
-                if not isclose(scaled_expected, scaled_actual, rel_tol=0, abs_tol=0):
+                scaled_actual = value * scale_factor
+                scaled_expected = schema.props.value * scale_factor
+                if isfinite(scaled_actual) and isfinite(scaled_expected):
+                    is_equal = isclose(round(scaled_expected), round(scaled_actual),
+                                       rel_tol=0, abs_tol=0)
+                else:
+                    # inf, nan and values too large to scale have no place on the precision grid
+                    is_equal = (value == schema.props.value)
+                if not is_equal:
                     return result.add_error(ValueValidationError(path, value, schema.props.value))
 
         if schema.props.min is not Nil:
